@@ -124,7 +124,7 @@ class ByteInterval(Node):
     address = _IndexedAttribute[typing.Optional[int]]()(
         lambda self: self.section
     )
-    size = _IndexedAttribute[int]()(lambda self: self.section)
+    _size = _IndexedAttribute[int]()(lambda self: self.section)
 
     def __init__(
         self,
@@ -163,8 +163,10 @@ class ByteInterval(Node):
         super().__init__(uuid=uuid)
         self._section: typing.Optional["Section"] = None
         self.address = address
-        self.size = size
+        # contents must exist before size is assigned: the size setter
+        # truncates it.
         self.contents = bytearray(contents)
+        self.size = size
         self.initialized_size = initialized_size
 
         # Both blocks and _interval_tree must exist before adding any blocks.
@@ -197,6 +199,23 @@ class ByteInterval(Node):
 
     def _index_discard(self, block: ByteBlock) -> None:
         self._interval_tree.discard(block)
+
+    @property
+    def size(self) -> int:
+        """The size of this interval in bytes.
+
+        If the size is changed to a value that is less than the number of
+        stored bytes, the stored bytes are truncated to the new size, so that
+        ``initialized_size`` never exceeds ``size``.
+        """
+
+        return self._size
+
+    @size.setter
+    def size(self, value: int) -> None:
+        self._size = value
+        if value < len(self.contents):
+            self.contents = self.contents[:value]
 
     @property
     def initialized_size(self) -> int:
